@@ -24,7 +24,16 @@ def c10_ok (tail head : Nat) (origin amount : Nat) (end_ reply : String) (reads 
       if k == amount then none else
       if origin + amount - 1 > head && origin + k - 1 == head then none else some "c10_reply_exact"
 
+/-- a peer that never completes its request: the server ends the stream once the configured read deadline has passed
+    (not before half of it, not later than seconds after it) -/
+def evalStall (ins outs : List String) : Verdict :=
+  match kv? outs "end", kv? outs "bucket" with
+  | some e, some "ok" => .ok s!"stall-{(kv? ins "how").getD "?"}-{e}"
+  | some e, some b => .prop "c10_no_hang_beyond_timeouts" s!"stalled request: how={(kv? ins "how").getD "?"} deadline={(kv? ins "deadline").getD "?"}ms end={e} {b}"
+  | _, _ => .bad "stall fields"
+
 def evalC10 (ins outs : List String) : Verdict :=
+  if kv? ins "kind" == some "stall" then evalStall ins outs else
   match kv? ins "kind", kvNat? ins "tail", kvNat? ins "head", kvNat? ins "origin", kvNat? ins "amount",
         kv? outs "end", kv? outs "reply", kvNat? outs "reads", kvNat? outs "slow" with
   | some kind, some tail, some head, some origin, some amount, some end_, some reply, some reads, some slow =>
